@@ -104,7 +104,9 @@ def rand_doc(r, maxlines=8) -> str:
     return s
 
 
-LEAVES_S = [["# h"], ["h", "==="], ["t", "---"], ["```", "code", "", "more", "```"], ["~~~ info", "x", "~~~"], ["    code"], ["***"],
+LEAVES_S = [["<!-- a", "b", "c -->"], ["<script>", "let x = 1;", "", "y", "</script>"], ["<pre>", "  p", "</pre> tail"], ["<?php", "echo 1;", "?>"],
+            ["<![CDATA[", "x", "]]>"], ["<!DOCTYPE", "html>"], ["<style>", "a{}", "</style>"], ["title", "more", "==="], ["t1", "t2", "--- "],
+            ["# h"], ["h", "==="], ["t", "---"], ["```", "code", "", "more", "```"], ["~~~ info", "x", "~~~"], ["    code"], ["***"],
             ["<div>", "x", "</div>"], ["[r]: /u 'T'"], ["|a|b|", "|-|-|", "|1|2|"], ["<!-- c -->"], ["a", "b"], ["[r]"], ["```", "open"],
             # reference definitions whose title runs over several lines, with a backslash before the line ending
             ["[r]: /u \"a\\", "b\""], ["[r2]: /u 'x\\", "y\\", "z'"], ["[r3]:", "/u", "(t\\", "u)"], ["[r4]: /u \"one", "two\""]]
